@@ -49,6 +49,34 @@ class ScheduledFile(object):
         self.pos += len(out)
         return out
 
+    def readinto(self, buf):
+        chunk = self.read(len(buf))
+        buf[:len(chunk)] = chunk
+        return len(chunk)
+
+    def read1(self, n=-1):
+        return self.read(n)
+
+    def readable(self):
+        return True
+
+    def seekable(self):
+        return True
+
+    def tell(self):
+        return self.pos
+
+    def seek(self, pos, whence=0):
+        self.pos = {0: 0, 1: self.pos, 2: len(self.data)}[whence] + pos
+        return self.pos
+
+    def fileno(self):
+        raise OSError("the scheduled file has no descriptor")      # (what io objects without a descriptor raise)
+
+    @property
+    def closed(self):
+        return False
+
     def __enter__(self):
         return self
 
